@@ -141,7 +141,10 @@ func runC20(w *World) {
 	var adds []*added
 	ctl := func(a *added) corebgp.PeerOption {
 		return corebgp.WithDialerControl(func(network, address string, c syscall.RawConn) error {
-			a.dials = append(a.dials, w.Net.CurDial)
+			w.Net.mu.Lock()
+			cur := w.Net.CurDial
+			w.Net.mu.Unlock()
+			a.dials = append(a.dials, cur)
 			return nil
 		})
 	}
